@@ -142,11 +142,44 @@ func runC04(c *sim.Ctx, t *testing.T) {
 	ntrials := 4 + c.Intn(8, "ntrials")
 	paths := ""
 	interesting := 0
+	var lastMsg, lastMsgObj interface{}
 	for i := 0; i < ntrials; i++ {
+		if i == ntrials/2 && c.Chance(1, 3, "editspec") {
+			// the host edits the live spec in place (one branch gets another pattern) and
+			// compiles it again: what was learnt about the old pattern must be forgotten
+			names := nodeNames(gs)
+			name := names[c.Intn(len(names), "editnode")]
+			if n := gs.Nodes[name]; n != nil && len(n.Branches) > 0 && spec.Nodes[name] != nil && spec.Nodes[name].Branches != nil {
+				bi := c.Intn(len(n.Branches), "editbranch")
+				if n.Branches[bi].HasPat && bi < len(spec.Nodes[name].Branches.Branches) {
+					keys := msgKeys
+					if n.Type != "message" {
+						keys = bsKeys
+					}
+					pat := map[string]interface{}{keys[c.Intn(len(keys), "editkey")]: []interface{}{"?w", 1.0, "x"}[c.Intn(3, "editval")]}
+					n.Branches[bi].Pattern = pat
+					spec.Nodes[name].Branches.Branches[bi].Pattern = ref.CopyVal(pat)
+					ints := interpreters
+					if genExt {
+						ints = interpretersExt
+					}
+					if err := spec.Compile(ctx, ints, true); err != nil {
+						c.Infra = "edited spec does not compile: " + err.Error()
+						return
+					}
+					c.Count("specs_edited_and_recompiled")
+				}
+			}
+		}
 		st := genState(c, gs, cfg)
 		var pending interface{}
 		if !c.Chance(1, 5, "nopending") {
 			pending = genMessage(c)
+		}
+		// a host fanning one message out hands the very same object to several machines
+		sameObj := false
+		if lastMsg != nil && c.Chance(1, 4, "samemessage") {
+			pending, sameObj = lastMsg, true
 		}
 		r := gs.Step(st, pending)
 		var (
@@ -167,7 +200,12 @@ func runC04(c *sim.Ctx, t *testing.T) {
 			ctl = &core.Control{Limit: 10}
 		}
 		if c.Guard(fmt.Sprintf("Step from %s/%s pending %s", st.Node, ref.Canon(st.Bs), ref.Canon(pending)), func() {
-			stride, serr = spec.Step(ctx, in, ref.CopyVal(pending), ctl, nil)
+			obj := ref.CopyVal(pending)
+			if sameObj && lastMsgObj != nil {
+				obj = lastMsgObj
+			}
+			lastMsg, lastMsgObj = pending, obj
+			stride, serr = spec.Step(ctx, in, obj, ctl, nil)
 		}) {
 			c.Logf("spec: %s", specJSON(gs))
 			return
